@@ -570,8 +570,17 @@ assembleVaryKey(String &vary, SBuf &vstr, const HttpRequest &request)
         vstr.append(name);
         String hdr;
         // a field present with an empty value does not match an absent
-        // field (RFC 9111 section 4.1), so presence decides, not the value
-        if (request.header.hasNamed(name, &hdr)) {
+        // field (RFC 9111 section 4.1), so presence decides, not the value;
+        // all field lines with that name count, whatever the field type
+        bool present = false;
+        HttpHeaderPos fieldPos = HttpHeaderInitPos;
+        while (const auto e = request.header.getEntry(&fieldPos)) {
+            if (e->name.caseCmp(name) == 0) {
+                present = true;
+                strListAdd(hdr, e->value.termedBuf(), e->value.size(), ',');
+            }
+        }
+        if (present) {
             const char *value = hdr.size() ? rfc1738_escape_part(hdr.termedBuf()) : "";
             vstr.append("=\"", 2);
             vstr.append(value);
